@@ -1262,7 +1262,8 @@ class C08(Check):
     def impl_view(self, case, obs):
         if obs.get("abandoned"): return obs
         segs = segments(obs["log"], obs["marks"])
-        segs = [[e for e in s if not e[0].startswith("_")] for s in segs]
+        # ("waiting": the text of a log warning — outside the property, a reworded message must not break the tie: not compared)
+        segs = [[e for e in s if not e[0].startswith("_") and e[0] != "waiting"] for s in segs]
 
         wired = {}
         for k, attr, comp, ev in obs["hits"]:
@@ -1278,7 +1279,7 @@ class C08(Check):
         silent = set(s["id"] for s in resp["sinks"] if case["sinks"][s["sink"]].get("met") is None)
         silent |= set(i for i, b in resp["decls"] if b in (len(case["bodies"]), len(case["bodies"]) + 1))
         segs = segments(resp["log"], resp["marks"])
-        segs = [[e for e in s if not (e[0] in ("fired", "failed") and e[1] in silent)] for s in segs]
+        segs = [[e for e in s if not (e[0] in ("fired", "failed") and e[1] in silent) and e[0] != "waiting"] for s in segs]
         wired = {}
         for s in resp["sinks"]:
             for b in s["bound"]:
